@@ -58,3 +58,94 @@ Example C15_example :
   | Err _ => False
   end.
 Proof. vm_compute. reflexivity. Qed.
+
+(* ------------------------------------------------------------------------------------------------------ *)
+(* Second half: the library's OWN parser (MessageAny.deserialize, as traced into Gen/TlbImpl.v:             *)
+(* impl_MessageAny and the trees it calls) returns the same message from the cell, and from every other     *)
+(* placement of the state-init and of the body.  Proofs/MessageParser.v: the cell ser_message builds is the *)
+(* block.tlb encoding (Spec/Tlb.v: encode_ch on Spec/BlockTlb.v: spec_MessageAny) of the object             *)
+(* pv_of_message info init body = MessageAny(info, init, body), followed by the body when it is stored      *)
+(* inline; then C16 (Proofs/TlbProofs.v).                                                                   *)
+(* info_kinds: the addresses have the kinds block.tlb prescribes (MsgAddressInt = addr_std for src/dest of  *)
+(* an internal message, MsgAddressExt for src of ext-in / dest of ext-out).  The serialiser (and the        *)
+(* parser) accept any address anywhere, but such a message is not a value of the schema; the statement      *)
+(* without info_kinds is not proved:                                                                        *)
+(*   forall info init body c fuel, info_ok info = true -> info_canon info = true -> (init_ok) ->            *)
+(*     cell_ok body = true -> ser_message info init body = Ok c -> 83 <= fuel ->                            *)
+(*     run_type impl_table fuel "MessageAny" [] c = Ok (pv_of_message info init body, ...).                 *)
+(* ------------------------------------------------------------------------------------------------------ *)
+From Coq Require Import String.
+From PTQ Require Import Model.Dtree Spec.Tlb Spec.BlockTlb Gen.TlbImpl Proofs.TlbProofs Proofs.MessageParser.
+
+(* (a) the parser returns the message that was serialised.  What is left of the slice: the body when the
+   serialiser stored it inline (deserialize keeps it with to_cell, it does not consume it), nothing when the
+   body went into a reference. *)
+Theorem C15_library_parser : forall info init body c fuel,
+  info_ok info = true -> info_canon info = true -> info_kinds info = true ->
+  match init with Some si => init_ok si = true | None => True end ->
+  cell_ok body = true ->
+  ser_message info init body = Ok c -> (83 <= fuel)%nat ->
+  run_type impl_table fuel "MessageAny"%string [] c
+  = Ok (pv_of_message info init body, if msg_body_inline info init body then begin_parse body else mkS [] []).
+Proof. exact message_parsed. Qed.
+Print Assumptions C15_library_parser.
+
+(* (b) any other valid encoding.  ch tells, for each Either field, which alternative an encoder uses (true: the
+   reference); cx what the object knows of what follows it (an inline body IS what follows: cx = Some (tb, tr)).
+   For EVERY ch: whenever the object of a message is a value of the layout and is encoded per block.tlb with
+   these alternatives, the parser returns that same object and leaves what followed. *)
+Theorem C15_any_encoding : forall ch cx info init body tb tr bits refs fuel,
+  wt_in ch spec_table spec_MessageAny cx (pv_of_message info init body) ->
+  encode_ch ch spec_table spec_MessageAny (pv_of_message info init body) = Ok (bits, refs) ->
+  ctx_ok cx tb tr -> (83 <= fuel)%nat ->
+  run_type impl_table fuel "MessageAny"%string [] (Cell (-1) (bits ++ tb) (refs ++ tr))
+  = Ok (pv_of_message info init body, mkS tb tr).
+Proof.
+  intros ch cx info init body tb tr bits refs fuel.
+  exact (C16_generic_ch "MessageAny" spec_MessageAny 83 eq_refl eq_refl ch cx (pv_of_message info init body) tb tr
+           bits refs fuel).
+Qed.
+Print Assumptions C15_any_encoding.
+
+(* ... and in message terms: for a serialisable header, all four placements (state-init inline / in a
+   reference: ri; body inline / in a reference: rb) have a block.tlb encoding, and the parser returns the same
+   object from each of them. *)
+Theorem C15_all_placements : forall info init bb br ic ri rb fuel,
+  info_ok info = true -> info_canon info = true -> info_kinds info = true ->
+  match init with Some si => init_ok si = true | None => True end ->
+  ser_info info = Ok ic -> (83 <= fuel)%nat ->
+  exists bits refs,
+    encode_ch (ch_of ri rb) spec_table spec_MessageAny (pv_of_message info init (Cell ty_ordinary bb br)) = Ok (bits, refs) /\
+    run_type impl_table fuel "MessageAny"%string []
+      (Cell (-1) (bits ++ (if rb then [] else bb)) (refs ++ (if rb then [] else br)))
+    = Ok (pv_of_message info init (Cell ty_ordinary bb br), if rb then mkS [] [] else mkS bb br).
+Proof. exact message_all_placements. Qed.
+Print Assumptions C15_all_placements.
+
+(* (c) an internal message with extra currencies, a state-init with code, data and library, a body with three
+   references (the shape that used to overflow): here both the state-init and the body end up in references *)
+Example C15_library_parser_example :
+  let a := AddrStd None 0 (repeat 1%N 32) in
+  let e := Cell (-1) [] [] in
+  let info := IntInfo true false false a a 10 [(1, 5); (7, 300)] 0 0 0 0 in
+  let si := mkSI (Some 3) (Some (true, false)) (Some e) (Some e) (Some e) in
+  let body := Cell (-1) [true] [e; e; e] in
+  (info_ok info = true /\ info_canon info = true /\ info_kinds info = true /\ init_ok si = true /\
+   cell_ok body = true /\ msg_body_inline info (Some si) body = false) /\
+  match ser_message info (Some si) body with
+  | Ok c => run_type impl_table 83 "MessageAny"%string [] c = Ok (pv_of_message info (Some si) body, mkS [] [])
+  | Err _ => False
+  end.
+Proof. vm_compute. repeat split; reflexivity. Qed.
+(* the same message with a body that fits: it is stored inline, parsed, and left in the slice *)
+Example C15_library_parser_example_inline :
+  let a := AddrStd None 0 (repeat 1%N 32) in
+  let e := Cell (-1) [] [] in
+  let info := IntInfo true false false a a 10 [(1, 5); (7, 300)] 0 0 0 0 in
+  let body := Cell (-1) [true; false; true] [e; e] in
+  msg_body_inline info None body = true /\
+  match ser_message info None body with
+  | Ok c => run_type impl_table 83 "MessageAny"%string [] c = Ok (pv_of_message info None body, begin_parse body)
+  | Err _ => False
+  end.
+Proof. vm_compute. repeat split; reflexivity. Qed.
